@@ -179,16 +179,21 @@ CHECKS['C01'] = dict(
     ref='DESIGN.md section 5, C01 and section 12')
 
 CHECKS['C06'] = dict(
-    category='exploration',
-    text='Interim level: the real inline parser is compared with an independent declarative implementation of the '
-         'CommonMark 0.30 delimiter-run procedure (flanking from the definitions, underscore restrictions, rule of three '
-         'on original run lengths, nearest admissible opener) exhaustively over {a,space,*,_,.} to length 7/9 and over '
-         '{a,*}, {a,_} to length 12/14, plus random strings to length 40 over Unicode punctuation/whitespace; the oracle '
-         'is itself checked against the corpus emphasis examples on every run. The Lean model of process_emphasis with '
-         'the flanking theorem and the refinement to the declarative procedure is the planned upgrade.',
-    note='Trusted: spec_emph.py as reading of section 6.2. Interim level, see DESIGN.md C06.',
-    technique='exhaustive small-scope + random differential against an executable model of the specification algorithm (Lean refinement proof pending)',
-    ref='DESIGN.md section 5, C06')
+    text='Lean 4 theorems over the model of core_tokens.py for EVERY text and every table of definitions: the inline '
+         'parser never fails (no index access of find_core_tokens / find_link_image / process_emphasis / '
+         'Delimiter.remove can raise, both loop fuels suffice - the clause "no such text makes the parser fail"); every '
+         'em/strong match has non-empty content between two delimiter strings of equal length 1 or 2 made of one and '
+         'the same character * or _; any two matches are disjoint or properly nested. Proving these exposed three '
+         'genuine defects (trailing backslash taken into a run; a pending "!" surviving an escape or a code span), '
+         'repaired in /repo. NOT proved: that the matches chosen are those of the specification\'s delimiter algorithm '
+         '(flanking, rule of three, nearest opener) - decided by exhaustive small-alphabet and random exploration of '
+         'the implementation against an independent declarative reading of CommonMark 6.2 (incl. backslash escapes). '
+         'Model tied to the code by an inline-level correspondence (token tree with attributes) on the same exhaustive '
+         'strings.',
+    note='Trusted: Lean kernel (axioms propext/Classical.choice/Quot.sound at most); inline correspondence harness; '
+         'spec_emph.py as oracle for the unproved clause (self-checked against the corpus examples each run).',
+    technique='Lean 4 proof (delimiter-stack invariant, decreasing measure for process_emphasis) + inline correspondence + exhaustive differential against a specification oracle for the choice of matches',
+    ref='DESIGN.md section 5, C06 and section 12')
 
 CHECKS['C04'] = dict(
     text='Lean 4 theorems over the block-parser model, for every buffer, start line, parser state and gas: '
@@ -209,24 +214,35 @@ CHECKS['C04'] = dict(
     ref='DESIGN.md section 5, C04 and section 12')
 
 CHECKS['C05'] = dict(
-    category='exploration',
-    text='Interim level: metamorphic exploration on the implementation - for pairs (A, B) meeting the side conditions the AST '
-         '(with line numbers) of A + blank line + B is compared with A\'s blocks followed by B\'s blocks shifted by the '
-         'number of preceding lines, over spec examples, mutations, splices, random documents and hand-picked container / '
-         'table / code pairs. The Lean locality theorem over the block-parser model is the planned upgrade.',
-    note='Trusted: exporter as AST observation. Interim level, see DESIGN.md C05.',
-    technique='metamorphic exploration of the concatenation law on the implementation (Lean locality theorem pending the block-parser model)',
-    ref='DESIGN.md section 5, C05')
+    text='Lean 4 theorems over the block-parser model. Full strength: whatever stands before a block boundary, the '
+         'dispatch loop started at the boundary computes exactly tokenize_block of the remaining lines alone with all '
+         'line numbers (every depth) shifted by the number of preceding lines - no reader looks at or steps back into '
+         'earlier lines (BlockCode back-off, Footnote hand-back, every backstep, List.read anchor reset), for complete '
+         'lines. Partial: for A without a top-level list whose last block is closed, parsing A + empty line + anything '
+         'reaches the boundary with A\'s entries and state; hence blockPhase(A ++ ["\\n"] ++ B) = A\'s entries ++ B\'s '
+         'entries shifted by |A|+1 when A defines no references. The general case (lists in A) is explored on the '
+         'implementation by the metamorphic comparison of Document(A), Document(B), Document(A + blank + B) with line '
+         'numbers. Model tied to the code by scanner and block-buffer correspondence on A, B and the concatenations.',
+    note='Trusted: Lean kernel (axioms propext/Classical.choice/Quot.sound at most); correspondence harness; exporter. '
+         'Class-level scratch is modelled as recomputed from the line start() saw (checked by correspondence on '
+         'concatenated documents, not proved about Python attribute semantics).',
+    technique='Lean 4 proof (cursor-relation simulation lemmas per reader + simultaneous induction over gas) + block-buffer correspondence + metamorphic exploration',
+    ref='DESIGN.md section 5, C05 and section 12')
 
 CHECKS['C14'] = dict(
-    category='exploration',
-    text='Interim level: paragraphs of 1-4 lines assembled from a vocabulary of ~120 tricky-but-inert tokens and accepted by '
-         'an independent, conservative inertness predicate written from the specification (block-start patterns per line, '
-         'inline triggers over the paragraph, the delimiter-run algorithm for * and _) must render as exactly that text, '
-         'HTML-escaped, in a single <p>. The Lean theorem C14_prose over the parser model is the planned upgrade.',
-    note='Trusted: the inertness predicate and spec_emph.py as readings of the specification. Interim level, see DESIGN.md C14.',
-    technique='exploration with a specification-derived inertness oracle (Lean theorem pending the parser model)',
-    ref='DESIGN.md section 5, C14')
+    text='Lean 4 theorems over the parser and HTML renderer models: lines on which no block-start scanner fires form '
+         'exactly one Paragraph of exactly those lines (every token-type list containing Paragraph); a text meeting a '
+         'decidable inertness condition (no backslash/backtick, < and & not starting a tag, autolink or reference, no '
+         '~~, no ] after the first [, every * or _ run unable to close by the flanking rules) yields no inline token '
+         'candidate at all; end to end Document(text) is one Paragraph of raw text and soft breaks and the renderer '
+         'writes "<p>" + escape(text) + "</p>" for every option set. The hypotheses are executable: each run evaluates '
+         'them in Lean on thousands of generated paragraphs and checks the theorem\'s conclusion on the REAL renderer '
+         'wherever they hold; the share of the specification-derived inert domain they cover is measured (about 60%); '
+         'the rest of that domain is explored against an independent spec-derived predicate.',
+    note='Trusted: Lean kernel (axioms propext/Classical.choice/Quot.sound at most); doc correspondence; the second '
+         'driver (PropsMain.lean) evaluating the hypotheses; the spec-derived predicate of the exploration.',
+    technique='Lean 4 proof (scanner lemmas, no-candidate invariant of the core scanner, renderer computation) + hypothesis evaluation with conclusion checked on the implementation + exploration',
+    ref='DESIGN.md section 5, C14 and section 12')
 
 CHECKS['C03'] = dict(
     category='exploration',
